@@ -29,6 +29,8 @@ SKELETONS: list[tuple[str, list[tuple]]] = [
     ("def-call", SHORT_PRE + [(0, "def"), (1, "mark"), (1, "if"), (2, "mark"), (1, "ret"), (0, "mark"), (0, "call", 6), (0, "mark")]),
     # a helper that binds a local of the name of a global (comment lines at column 0 inside the body must not change whose `v` that is)
     ("def-local", SHORT_PRE + [(0, "def"), (1, "local"), (1, "mark"), (1, "if"), (2, "local"), (1, "ret"), (0, "mark"), (0, "call", 6), (0, "mark")]),
+    # a helper that calls a helper defined further down with a float (the callee's header may carry a trailing comment, blanks, ...)
+    ("def-forward", SHORT_PRE + [(0, "def"), (1, "fwdret", 8), (0, "def"), (1, "retf"), (0, "mark"), (0, "call", 6), (0, "mark")]),
     ("try-except", SHORT_PRE + [(0, "try"), (1, "mark"), (1, "bright"), (0, "except", 6), (1, "mark"), (0, "mark")]),
     ("main-if-else", SHORT_PRE + [(0, "main"), (1, "mark"), (1, "if"), (2, "bright"), (2, "mark"), (1, "else"), (2, "mark"),
                                   (1, "mark"), (1, "sleep")]),
@@ -45,7 +47,7 @@ SKELETONS: list[tuple[str, list[tuple]]] = [
 ]
 
 HEADER_KINDS = {"if", "elif", "else", "for", "while", "def", "try", "except", "main"}
-LOCATABLE = {"mark", "bright", "sleep", "blink", "aug", "local", "call", "ret", "if", "elif", "for", "while", "def"}
+LOCATABLE = {"mark", "bright", "sleep", "blink", "aug", "local", "call", "ret", "fwdret", "retf", "if", "elif", "for", "while", "def"}
 
 # spacing variants: 0 canonical, 1 loose, 2 tight, 3 space before the call parenthesis, 4 around the dot, 5 doubled blanks,
 # 6 keyword directly against a parenthesis (`if(v == 1):`, `while(True):`, `return(a)`), 7 parenthesised after a blank,
@@ -62,6 +64,8 @@ TEXT = {
     "sleep": {0: "sleep({K})", 1: "sleep( {K} )", 3: "sleep ({K})"},
     "blink": {0: "led.blink({K}, 2)", 1: "led.blink( {K} , 2 )", 2: "led.blink({K},2)", 3: "led.blink ({K}, 2)", 4: "led . blink({K}, 2)"},
     "aug":   {0: "v = v + {K}", 1: "v  =  v  +  {K}", 2: "v=v+{K}"},
+    "fwdret": {0: "return f{R}(a * 0.5) + {K}", 1: "return  f{R}( a * 0.5 )  +  {K}", 3: "return f{R} (a * 0.5) + {K}"},
+    "retf":  {0: "return a * 1.5 + {K}", 1: "return  a  *  1.5  +  {K}", 2: "return a*1.5+{K}"},
     "local": {0: "v = {K}", 1: "v  =  {K}", 2: "v={K}"},
     "call":  {0: "f{R}({K})", 1: "f{R}( {K} )", 3: "f{R} ({K})"},
     "ret":   {0: "return a + {K}", 1: "return  a  +  {K}", 2: "return a+{K}", 6: "return(a + {K})", 7: "return (a + {K})", 8: "return ( a + {K} )"},
@@ -333,6 +337,25 @@ CATALOGUE: dict[str, dict] = {
     "augassign": {"s": ["v += {P}"]},
     "tuple-assign": {"s": ["ta{P}, tb{P} = 1, 2"]},
     "list-decl": {"s": ["ys{P} = [1, 2, 3]"]},
+    # identifiers that BEGIN with a keyword or with another word the line dispatch knows (`import`, `from`, `def`, `if`, `for`, `while`,
+    # `return`, `pass`, `print`, `global`, `try`, `else`, `target`, `sleep`): they are ordinary names
+    "assign-name-import-prefix": {"s": ["imported = {P}", "mon.write(imported)"]},
+    "assign-name-from-prefix": {"s": ["fromage = {P}", "mon.write(fromage)"]},
+    "assign-name-def-prefix": {"s": ["defer = {P}", "mon.write(defer)"]},
+    "assign-name-if-prefix": {"s": ["iffy = {P}", "mon.write(iffy)"]},
+    "assign-name-for-prefix": {"s": ["fortune = {P}", "mon.write(fortune)"]},
+    "assign-name-while-prefix": {"s": ["whilex = {P}", "mon.write(whilex)"]},
+    "assign-name-return-prefix": {"s": ["returned = {P}", "mon.write(returned)"]},
+    "assign-name-pass-prefix": {"s": ["passing = {P}", "mon.write(passing)"]},
+    "assign-name-print-prefix": {"s": ["printed = {P}", "mon.write(printed)"]},
+    "assign-name-global-prefix": {"s": ["globalx = {P}", "mon.write(globalx)"]},
+    "assign-name-try-prefix": {"s": ["tryout = {P}", "mon.write(tryout)"]},
+    "assign-name-else-prefix": {"s": ["elsewhere = {P}", "mon.write(elsewhere)"]},
+    "assign-name-target-prefix": {"s": ["targeted = {P}", "mon.write(targeted)"]},
+    "assign-name-sleep-prefix": {"s": ["sleepy = {P}", "mon.write(sleepy)"]},
+    "augassign-name-import-prefix": {"s": ["v += {P}"], "rename": ("v", "importance")},
+    "call-helper-import-prefix": {"s": ["helper({P})"], "rename": ("helper", "import_sample")},
+    "call-helper-print-prefix": {"s": ["helper({P})"], "rename": ("helper", "printout")},
     "list-append": {"s": ["xs.append({P})"]},
     "list-remove": {"s": ["xs.remove({P})"]},
     "ternary-assign": {"s": ["v = {P} if v else 0"]},
@@ -458,6 +481,10 @@ def account_script(kind: str, ctx: str, twin: bool = False) -> tuple[str, str]:
     if twin:
         body[k] = body[k][:len(body[k]) - len(body[k].lstrip())] + "pass"
     lines = ACC_PRE + before + [pad + "mon.write(9001)"] + [pad + s if s else s for s in body] + [pad + "mon.write(9002)"] + after
+    if "rename" in CATALOGUE[kind]:          # the same script with one of its names spelled differently, everywhere
+        old, new = CATALOGUE[kind]["rename"]
+        lines = [re.sub(rf"\b{old}\b", new, ln) for ln in lines]
+        key = re.sub(rf"\b{old}\b", new, key)
     return "\n".join(lines) + "\n", key
 
 
